@@ -31,7 +31,20 @@ class State:
         s.log = self.log
         return s
 
+    def _saturate(self):
+        """make equalities that hold by value explicit for the tracking variables ('@...'), so that a join with a path
+        where the same equality holds symbolically keeps it"""
+        for k, iv in self.v.items():
+            if not k.startswith("@") or iv.lo != iv.hi or iv.lo_s or iv.hi_s:
+                continue
+            same = frozenset(y for y, jv in self.v.items() if y != k and not y.startswith("@") and jv.lo == jv.hi == iv.lo and not jv.lo_s and not jv.hi_s)
+            if same:
+                self.lo[k] = self.lo.get(k, frozenset()) | same
+                self.hi[k] = self.hi.get(k, frozenset()) | same
+
     def join(self, o: "State") -> "State":
+        self._saturate()
+        o._saturate()
         s = State()
         for k in set(self.v) | set(o.v):
             a, b = self.v.get(k), o.v.get(k)
